@@ -88,6 +88,18 @@ def extra_programs(rng):
         out.append('x = 0\nf = lambda c, x=x: x\ndef g(c):\n    h = lambda: x\n' + body)
     out.append('x = 0\ndef P():\n    x = 1\n    def S():\n        global x\n        return x\n    return S\n')
     out.append('def P():\n    x = 1\n    def S():\n        nonlocal x\n        x = 2\n        return x\n    return S, x\n')
+    # declarations x where the same spelling is read: a `nonlocal x` / `global x` rebinding in a nested function, and reads of x
+    # that the compiler resolves elsewhere (module level with and without a module binding, an unrelated function, a sibling
+    # nested function, a class body, the declaring function's parent)
+    for decl, outer_bind in (('nonlocal', True), ('global', True), ('global', False)):
+        for module_x in (True, False):
+            for binder in ('x = x + 1', 'x = 2', 'import x', 'def x():\n            pass', 'for x in c:\n            pass'):
+                src = ('x = 0\n' if module_x else '') + \
+                    'def make(c):\n' + ('    x = 1\n' if outer_bind or decl == 'nonlocal' else '') + \
+                    '    def bump():\n        %s x\n        %s\n        return x\n' % (decl, binder) + \
+                    '    def peek():\n        return x\n    return bump, peek' + (', x' if outer_bind or decl == 'nonlocal' else '') + '\n' + \
+                    'def report():\n    return x\nclass K:\n    y = x\n    def m(self):\n        return x\nprint(x)\n'
+                out.append(src)
     out.append('x = 5\ndef f(ys):\n    r = [x for x in ys]\n    return x, r\n')
     out.append('class A:\n    k = 1\n    def m(self):\n        return k\nk = 2\n')
     return out
@@ -118,12 +130,34 @@ def corpus(check):
     return progs
 
 
-def supp_owner(S, gv, alt_obj, class_nodes):
+def binding_scope(builder, pos, skip_node=None):
+    """the compiler scope a binding written at `pos` belongs to syntactically (innermost def/lambda/class containing it;
+    `skip_node`: the def/class statement whose own name is the binding)"""
+    best = None
+    for s in builder.scopes:
+        n = s.node
+        if s.kind in ('module', 'comp') or not hasattr(n, 'end_lineno') or n is skip_node:
+            continue
+        if (n.lineno, n.col_offset) <= tuple(pos) <= (n.end_lineno, n.end_col_offset):
+            if best is None or (n.lineno, n.col_offset) >= (best.node.lineno, best.node.col_offset):
+                best = s
+    return best
+
+
+def supp_owner(S, gv, alt_obj, class_nodes, builder=None):
     sc = S['scope']
     nm = S['name']
     if isinstance(alt_obj, nm.RuntimeName):
         return ('global-or-builtin',)
     if any(alt_obj is g for g in gv.top._global_names.values()):
+        # supp keeps it in the module's table of global names: right only if the binding is written at module level or under a
+        # `global` declaration (a binding under `nonlocal` routed there would answer reads of the module global)
+        pos = getattr(alt_obj, 'declared_at', None)
+        name = getattr(alt_obj, 'name', None)
+        if builder is not None and pos and name:
+            b = binding_scope(builder, pos, getattr(alt_obj, 'node', None) if isinstance(alt_obj, (sc.FuncScope, sc.ClassScope)) else None)
+            if b is not None and name in b.bound and name not in b.globals:
+                return norm_owner(b.owner_key(), builder)
         return ('global-or-builtin',)
     s = getattr(alt_obj, 'scope', None)
     if isinstance(s, sc.SourceScope):
@@ -150,7 +184,7 @@ def norm_owner(key, builder):
     return (key[0], id(key[1]))
 
 
-def classify(read_scope, name, alt_obj, comp_names, node, builder):
+def classify(read_scope, name, alt_obj, comp_names, node, builder, got=None, want=None):
     """known-finding class of a mismatch, or None"""
     cn = comp_names.get(id(alt_obj))
     if cn is not None:
@@ -177,14 +211,21 @@ def classify(read_scope, name, alt_obj, comp_names, node, builder):
             if p is not None and p.kind == 'class':
                 return 'C05-class-comprehension'   # the read is in (a function nested in) a comprehension of a class body
         a = a.parent
+    # the two declaration classes, each only in the direction the finding describes:
+    #   global-declared-read: the compiler says global, supp answers with a local of an ENCLOSING function of the declaring scope
+    #   nonlocal-binding:     supp says the function that DECLARES the name nonlocal owns the binding, the compiler says the
+    #                         function that declaration refers to
     while s is not None:
-        if name in s.globals:
-            return 'C05-global-declared-read'
-        if name in s.nonlocals:
-            return 'C05-nonlocal-binding'
+        if name in s.globals and want == ('global-or-builtin',) and got[0] == 'function':
+            e = s.parent
+            while e is not None:
+                if e.kind == 'function' and name in e.bound and norm_owner(e.owner_key(), builder) == got:
+                    return 'C05-global-declared-read'
+                e = e.parent
         s = s.parent
     for s in builder.scopes:
-        if name in s.nonlocals:
+        if name in s.nonlocals and norm_owner(s.owner_key(), builder) == got and \
+                norm_owner(symres.resolve(s, name), builder) == want:
             return 'C05-nonlocal-binding'
     return None
 
@@ -273,9 +314,9 @@ def judge(check, S, programs):
                 nontrivial += 1
             for a in alts:
                 n_alts += 1
-                got = supp_owner(S, gv, a, class_nodes)
+                got = supp_owner(S, gv, a, class_nodes, builder)
                 if got != want:
-                    cls = classify(rs, node.id, a, comp_names, node, builder)
+                    cls = classify(rs, node.id, a, comp_names, node, builder, got, want)
                     if cls:
                         known_seen[cls] = known_seen.get(cls, 0) + 1
                         check.known_hits.setdefault(cls, KNOWN[cls]) if any(k['id'] == cls for k in check.known) else \
